@@ -81,9 +81,23 @@ pub fn dispatch(args: &[String]) -> i32 {
     }
 }
 
+fn hp(family: &'static str, quick_depth: usize, thorough_depth: usize) -> HxPlan {
+    // the second configuration is ~3x slower: one level less
+    let t = if crate::common::is_sub() { thorough_depth.saturating_sub(1).max(quick_depth) } else { thorough_depth };
+    HxPlan { family, quick_depth, thorough_depth: t }
+}
+
 pub fn run_check(prop: &str, tier: &str) -> i32 {
+    const HX: &str = "breadth-first search over public-API histories from a fixed initial world; every transition executes the real library call on real keys; after each one the master key, user keys and public keys are decoded from their serialised form and compared with the reference model, and the decaps matrix (live keys x policy menu x every public key published so far) is evaluated; states are de-duplicated on the canonical (model, decoded implementation) state; a state is non-trivial/distinct by that key";
     match prop {
-        "C04" => histex_check(prop, tier, &[HxPlan { family: "rot", quick_depth: 3, thorough_depth: 5 }], &["C04."], "BFS over rekey/prune/refresh/keygen histories; every transition runs the real call; decaps matrix + decoded chains vs version model"),
+        "C03" => histex_check(prop, tier, &[hp("edit", 4, 5)], &["C03."], HX),
+        "C04" => histex_check(prop, tier, &[hp("rot", 4, 5)], &["C04."], HX),
+        "C05" => histex_check(prop, tier, &[hp("rotdel", 4, 5), hp("rot", 3, 4)], &["C05."], HX),
+        "C06" => histex_check(prop, tier, &[hp("dis", 4, 6)], &["C06."], HX),
+        "C09" => histex_check(prop, tier, &[hp("args", 3, 4), hp("rotdel", 3, 4), hp("dis", 3, 4), hp("failrot", 3, 4), hp("trace", 3, 4), hp("recaps", 2, 3)], &["C09."], HX),
+        "C10" => histex_check(prop, tier, &[hp("failrot", 3, 4), hp("args", 3, 4), hp("trace", 3, 5)], &["C10."], HX),
+        "C17" => histex_check(prop, tier, &[hp("trace", 4, 6), hp("rot", 3, 4)], &["C17."], HX),
+        "C18" => histex_check(prop, tier, &[hp("recaps", 3, 4)], &["C18."], HX),
         _ => machinery(&format!("no check for {prop}")),
     }
 }
